@@ -148,6 +148,17 @@ def run_case(case, tracer, tracer_mods):
             T = pose4(sh["R"], sh["t"])
             hl = arr([0.5 * x for x in sh["size"]])
             out["free_box"] = [fl(geometry.support_function_box(arr(d), T, hl)) for d in case["dirs"]]
+        if sh["kind"] == "mesh" and case.get("sweep"):
+            # every cached start vertex: first_idx is what an earlier query left behind
+            sweep = []
+            for d in case["dirs"]:
+                row = []
+                for start in range(len(sh["vs"])):
+                    c._support_function.first_idx = start
+                    p = fl(col.support_function(arr(d)))
+                    row.append([int(c._support_function.first_idx), p])
+                sweep.append(row)
+            out["sweep"] = sweep
     except BaseException as e:  # noqa
         out["exc"] = type(e).__name__
         out["exc_msg"] = str(e)[:300]
@@ -164,7 +175,7 @@ def run_case(case, tracer, tracer_mods):
 def main():
     payload = json.load(open(sys.argv[1]))
     tracer = st.LineTracer(TRACE_FILES)
-    mods = [geometry, utils, mesh]
+    mods = [geometry, utils, mesh, colliders]
     res = [run_case(c, tracer, mods) for c in payload["cases"]]
     consts = dict(BOX_COORDS=np.asarray(geometry.BOX_COORDS, dtype=float).tolist(),
                   PROJECTION_LENGTH_EPSILON=float(mesh.PROJECTION_LENGTH_EPSILON),
